@@ -30,10 +30,12 @@ pub mod c03;
 pub mod c04;
 pub mod c05;
 pub mod c07;
+pub mod c08;
 pub mod c09;
 pub mod c10;
 pub mod c11;
 pub mod c13;
+pub mod c14;
 pub mod c15;
 pub mod c16;
 pub mod c17;
@@ -48,10 +50,12 @@ pub fn run(property: &str, tier: Tier, seed: u64) -> Option<MonOut> {
         "C04" => Some(c04::run(tier, seed)),
         "C05" => Some(c05::run(tier, seed)),
         "C07" => Some(c07::run(tier, seed)),
+        "C08" => Some(c08::run(tier, seed)),
         "C09" => Some(c09::run(tier, seed)),
         "C10" => Some(c10::run(tier, seed)),
         "C11" => Some(c11::run(tier, seed)),
         "C13" => Some(c13::run(tier, seed)),
+        "C14" => Some(c14::run(tier, seed)),
         "C15" => Some(c15::run(tier, seed)),
         "C16" => Some(c16::run(tier, seed)),
         "C17" => Some(c17::run(tier, seed)),
